@@ -56,7 +56,8 @@ type backendPlan struct {
 	header  http.Header
 	body    string
 	latency time.Duration
-	chunks  []string // kind "lockstep"
+	chunks  []string    // kind "lockstep"
+	trailer http.Header // undeclared trailers
 }
 
 type backendCall struct {
@@ -293,6 +294,21 @@ func (w *world) upload(r *http.Request, id string) (*http.Response, error) {
 		buf := make([]byte, 10)
 		r.Body.Read(buf)
 		return nil, errors.New("scripted: broken pipe")
+	case "503once", "erronce":
+		n := 0
+		for _, o := range w.uploads {
+			if o.id == id {
+				n++
+			}
+		}
+		if n == 1 {
+			// the first attempt: read everything, then fail
+			io.Copy(io.Discard, r.Body)
+			if w.uploadFault[id] == "erronce" {
+				return nil, errors.New("scripted: connection reset by peer")
+			}
+			return resp(503, nil, nil, r), nil
+		}
 	}
 	// the proxy reads the upload as it arrives: what it has seen so far is visible to the scripted backend
 	buf := make([]byte, 32<<10)
@@ -399,6 +415,13 @@ func (b backendRT) RoundTrip(r *http.Request) (*http.Response, error) {
 	payload := bp.body
 	if payload == "" {
 		payload = "response-for-" + tok
+	}
+	if bp.trailer != nil {
+		// trailers the backend did not announce in a Trailer field (gRPC style)
+		rp := resp(status, hdr, []byte(payload), r)
+		rp.ContentLength = -1
+		rp.Trailer = bp.trailer.Clone()
+		return rp, nil
 	}
 	switch bp.kind {
 	case "lockstep":
